@@ -1,0 +1,25 @@
+//go:build verif
+
+package filter
+
+// Contracts for the filter plugin (C14, C01, C09), read by /verif's gvc.
+
+//@ func (g *gen) Add(name string, typs []types.Type) (r string, err error)
+//@ param typs: len=0,1,2,3
+//@ param name: classes=Ident
+
+//@ func (g *gen) Generate(typs []types.Type) (err error)
+//@ param typs: len=1
+
+//@ func (g *gen) genFuncFor(in types.Type) (err error)
+//@ emits: decls
+//@ serves: filter len=1 in=typs[0]
+//@ o-sig: (predicate func($in) bool, list []$in) (r []$in)
+//@ o-requires: predicate != nil
+//@ o-ensures: [length] len(r) == countIf(predicate, list, len(list))
+//@ o-ensures: [kept-in-order] forall k int :: 0 <= k && k < len(list) && predicate(list[k]) ==> r[countIf(predicate, list, k)] == list[k]
+//@ o-ensures: [in-order] traceLen() == len(list) && forall k int :: 0 <= k && k < len(list) ==> called(k, predicate, list[k])
+//@ o-loop: 1: invariant j == countIf(predicate, old(list), $i) && j <= $i && len(list) == len(old(list)) && traceLen() == $i
+//@ o-loop: 1: invariant forall k int :: 0 <= k && k < $i && predicate(old(list)[k]) ==> list[countIf(predicate, old(list), k)] == old(list)[k]
+//@ o-loop: 1: invariant forall k int :: $i <= k && k < len(list) ==> list[k] == old(list)[k]
+//@ o-loop: 1: invariant forall k int :: 0 <= k && k < $i ==> called(k, predicate, old(list)[k])
